@@ -19,12 +19,15 @@ TRUSTED = [
     "numba compiles the same arithmetic as the Python source of the compiled variants (compared numerically per sample)",
 ]
 ASSUME = [
-    "theorems are over Coq's R; the implementation computes in binary64",
+    "C12_radius_volume_inv ... C12_curvature_formula are over Coq's R; the C12_fp_* theorems bound the rounding error of "
+    "the binary64 evaluation in the standard model (every operation exact up to relative error u = 2^-53, library pow up "
+    "to 2u, no intermediate result outside the normal range): measured against the implementation on every run",
     "spherical_index_lm / count_optimal use a float sqrt: the Z.sqrt model agrees for k < 2^52",
     "array (numpy) evaluation is elementwise application of the scalar formula (checked per sample)",
 ]
 RULE = ("translator sample goals: each generated real function evaluated by the implementation on magnitudes "
-        "2^-50..2^50 (mantissas from VERIF_SEED) and compared inside Coq by interval arithmetic; index functions "
+        "2^-50..2^50 (mantissas from VERIF_SEED) and compared inside Coq by interval arithmetic, and at the boundary "
+        "argument 0 exactly (all variants and argument kinds; exclusions by name in definedness_obligations); index functions "
         "compared by vm_compute on all k below the bound; variants (scalar/array/compiled/nd) compared numerically; "
         "distinct = distinct (function, input) pairs, all non-trivial (non-zero argument)")
 
@@ -110,6 +113,95 @@ def _inputs(rng: random.Random, n: int):
     return xs
 
 
+# Variants that are NOT defined at the boundary value 0, by name (everything else is evaluated there):
+EXCLUDED_AT_ZERO = {
+    "drop_curvature": "interface_curvature = 1 / radius: the curvature of a sphere is defined for radius > 0 only "
+                      "(the implementation raises ZeroDivisionError at radius 0); domain 0 < radius in the obligations",
+    "radius_from_surface(., dim=1)": "documented to raise RuntimeError for every argument (the surface of a 1-d sphere "
+                                     "does not determine its radius); there is no rfs_*_1 definition",
+}
+
+
+def boundary_failures():
+    """The property quantifies over radii / volumes / surfaces >= 0: every variant at the argument 0 exactly (Python
+    float, numpy scalar, arrays that contain 0), droplets of radius 0.  The exact results are 0 (2 for the 1-d surface);
+    a raising call, a non-finite or a different value is a failure of the property at that input."""
+    import warnings
+    from droplets.tools import spherical as sp
+    from droplets.droplets import SphericalDroplet
+    fails = []
+
+    def probe(what, d, kind, thunk, expected):
+        try:
+            with warnings.catch_warnings():
+                warnings.simplefilter("ignore")
+                v = np.asarray(thunk(), dtype=float)
+        except Exception as e:  # noqa
+            fails.append({"what": f"{what} at the boundary argument 0", "dim": d, "argument": kind, "arg": 0.0,
+                          "result": f"raised {type(e).__name__}: {e}"[:200]})
+            return
+        exp = np.asarray(expected, dtype=float)
+        # the entry that belongs to the argument 0 exactly; the companion entry (argument 1 of the mixed array) up to the
+        # rounding difference between the array and the scalar evaluation of `pow` (1e-14, as for the other variants)
+        same = (v.shape == exp.shape and bool(np.all(np.isfinite(v))) and np.array_equal(v.flat[:1], exp.flat[:1])
+                and bool(np.all(np.abs(v - exp) <= 1e-14 * np.abs(exp))))
+        if not same:
+            fails.append({"what": f"{what} at the boundary argument 0", "dim": d, "argument": kind, "arg": 0.0,
+                          "result": repr(v.tolist()), "expected": repr(exp.tolist())})
+
+    def at(f, kind):
+        """(thunk, expected) of f on an argument of the given kind whose first entry is 0; expected(0) filled by caller"""
+        if kind == "float":
+            return (lambda: f(0.0)), None
+        if kind == "np.float64":
+            return (lambda: f(np.float64(0.0))), None
+        if kind == "array[0]":
+            return (lambda: f(np.array([0.0]))), None
+        return (lambda: f(np.array([0.0, 1.0]))), f(1.0)   # array[0, 1]
+
+    for d in (1, 2, 3):
+        zero_surface = 2.0 if d == 1 else 0.0
+        fams = [
+            ("volume_from_radius", lambda x, d=d: sp.volume_from_radius(x, d), 0.0, True),
+            ("radius_from_volume", lambda x, d=d: sp.radius_from_volume(x, d), 0.0, True),
+            ("surface_from_radius", lambda x, d=d: sp.surface_from_radius(x, d), zero_surface, True),
+            ("make_volume_from_radius_compiled", sp.make_volume_from_radius_compiled(d), 0.0, True),
+            ("make_radius_from_volume_compiled", sp.make_radius_from_volume_compiled(d), 0.0, True),
+            ("make_surface_from_radius_compiled", sp.make_surface_from_radius_compiled(d), zero_surface, True),
+            ("make_volume_from_radius_nd_compiled", lambda x, d=d, g=sp.make_volume_from_radius_nd_compiled(): g(x, d), 0.0, True),
+            ("make_radius_from_volume_nd_compiled", lambda x, d=d, g=sp.make_radius_from_volume_nd_compiled(): g(x, d), 0.0, True),
+        ]
+        if d > 1:
+            fams.append(("radius_from_surface", lambda x, d=d: sp.radius_from_surface(x, d), 0.0, True))
+        for what, f, e0, arrays in fams:
+            for kind in ("float", "np.float64", "array[0]", "array[0, 1]"):
+                try:
+                    with np.errstate(all="ignore"):
+                        thunk, e1 = at(f, kind)
+                except Exception as e:  # noqa  (the value at 1.0 is needed for the mixed array)
+                    fails.append({"what": f"{what} at the argument 1", "dim": d, "argument": "float", "arg": 1.0,
+                                  "result": f"raised {type(e).__name__}"})
+                    continue
+                expected = e0 if kind in ("float", "np.float64") else ([e0] if kind == "array[0]" else [e0, float(e1)])
+                probe(what, d, kind, thunk, expected)
+        # droplets of radius 0 (volume, surface area, bounding box; set volume 0; from_volume 0)
+        pos = np.arange(d) + 0.5
+        probe("SphericalDroplet(radius=0).volume", d, "droplet", lambda: SphericalDroplet(pos, 0.0).volume, 0.0)
+        probe("SphericalDroplet(radius=0).surface_area", d, "droplet", lambda: SphericalDroplet(pos, 0.0).surface_area, zero_surface)
+        probe("SphericalDroplet(radius=0).bbox.pos", d, "droplet", lambda: SphericalDroplet(pos, 0.0).bbox.pos, pos)
+        probe("SphericalDroplet(radius=0).bbox.size", d, "droplet", lambda: SphericalDroplet(pos, 0.0).bbox.size, np.zeros(d))
+
+        def set0():
+            dr = SphericalDroplet(pos, 1.0)
+            dr.volume = 0.0
+            return [dr.radius, dr.volume]
+
+        probe("droplet.volume = 0 -> (radius, volume)", d, "droplet", set0, [0.0, 0.0])
+        probe("SphericalDroplet.from_volume(volume=0).radius", d, "droplet",
+              lambda: SphericalDroplet.from_volume(pos, 0.0).radius, 0.0)
+    return fails
+
+
 def oracle(rng: random.Random, n: int):
     """Executable form of the property text over the implementation; returns failing inputs."""
     from droplets.tools import spherical as sp
@@ -168,6 +260,7 @@ def oracle(rng: random.Random, n: int):
                 fails.append({"what": "bbox formula", "dim": d, "radius": x})
             if not close(dr.interface_curvature, 1 / x):
                 fails.append({"what": "curvature formula", "dim": d, "radius": x})
+    fails = boundary_failures() + fails   # the boundary of the quantifier first (they are the sharpest inputs)
     for l in range(0, 40):
         for m in range(-l, l + 1):
             k = sp.spherical_index_k(l, m)
@@ -182,14 +275,219 @@ def oracle(rng: random.Random, n: int):
     return fails
 
 
-GENS = ["Gen_spherical", "Gen_spherical_index", "Gen_droplet_basic"]
+GENS = ["Gen_spherical", "Gen_spherical_index", "Gen_droplet_basic", "Gen_spherical_def", "Gen_spherical_fp"]
+DEPS = ["Proofs/C12.vo", "Model/Samples.vo", "Model/Defined.vo", "Gen/Gen_spherical_def.vo",
+        "Proofs/C12Float.vo", "Proofs/C12Flocq.vo"]
+
+
+# ---------------------------------------------------------------------------------------------------------------
+# floating-point layer: measured rounding errors of the implementation against the proved bounds K * u
+# ---------------------------------------------------------------------------------------------------------------
+FP_U = 2.0 ** -53          # unit roundoff of binary64 (Proofs/C12Flocq.v: u64)
+FP_KP = 2                  # premise on the library pow: one unit in the last place = 2 u (measured below)
+FP_EPS = 1e-3              # the slack of the stated constants (second-order terms)
+
+
+def _fp_bounds(d: int, L: float) -> dict:
+    """The constants of Properties/C12.v (C12_fp_conversions, C12_fp_round_trips, C12_fp_constants with kp = 2);
+    L >= |ln(exact radius)| enters only where a cube root is taken."""
+    kp = FP_KP
+    e2 = 1e-2   # slack of the round-trip constants
+    if d == 1:
+        return {"vfr": 1, "rfv": 1, "sfr": 0, "rv": 2 + e2, "vr": 2 + e2}
+    if d == 2:
+        return {"vfr": 3 + FP_EPS, "rfv": 2 + FP_EPS, "sfr": 3 + FP_EPS, "rfs": 3 + FP_EPS,
+                "rv": 3.5 + e2, "vr": 7 + e2, "rs": 6 + e2, "sr": 6 + e2}
+    return {"vfr": 4 + kp + FP_EPS, "rfv": L + 10 / 3 + FP_EPS, "sfr": 4 + FP_EPS, "rfs": 2.5 + FP_EPS,
+            "rv": L + 16 / 3 + e2, "vr": 3 * L + 16 + e2, "rs": 4.5 + e2, "sr": 9 + e2}
+
+
+def float_layer(ctx, rng: random.Random, n: int):
+    """Radii over 30 orders of magnitude (1e-15 .. 1e15): relative error of every scalar conversion against the exact
+    real function of the SAME binary64 argument, and of every round trip against the argument, in units of u = 2^-53.
+    References: 80-digit decimal arithmetic (error < 1e-75, against bounds of 1e-16: immaterial); round trips exactly.
+    Returns (max ratio per quantity, failures)."""
+    import decimal
+    from decimal import Decimal as D
+    from fractions import Fraction as F
+    from droplets.tools import spherical as sp
+    dctx = decimal.Context(prec=80)
+    PI = D("3.14159265358979323846264338327950288419716939937510582097494459230781640628620899862803482534211706798")
+    third = dctx.divide(D(1), D(3))
+    u = D(FP_U)
+
+    def exact(kind, d, x):
+        X = D(x)
+        m, dv, pw, sq = dctx.multiply, dctx.divide, dctx.power, dctx.sqrt
+        if kind == "vfr":
+            return [m(2, X), m(PI, m(X, X)), m(dv(m(4, PI), 3), m(X, m(X, X)))][d - 1]
+        if kind == "rfv":
+            return [dv(X, 2), sq(dv(X, PI)), pw(dv(m(3, X), m(4, PI)), third)][d - 1]
+        if kind == "sfr":
+            return [D(2), m(m(2, PI), X), m(m(4, PI), m(X, X))][d - 1]
+        return [None, dv(X, m(2, PI)), sq(dv(X, m(4, PI)))][d - 1]   # rfs
+
+    impl = {"vfr": sp.volume_from_radius, "rfv": sp.radius_from_volume, "sfr": sp.surface_from_radius,
+            "rfs": sp.radius_from_surface}
+    worst, fails = {}, []
+    lo, hi = 2.0 ** -1022, 2.0 ** 1023
+
+    def note(key, ratio, bound, rec):
+        ratio = float(ratio)
+        w = worst.setdefault(key, {"max_ratio": 0.0, "bound": None, "at": None, "max_ratio_over_bound": 0.0})
+        rb = ratio / bound if bound > 0 else (0.0 if ratio == 0 else math.inf)
+        if ratio > w["max_ratio"]:
+            w["max_ratio"], w["at"] = ratio, rec.get("arg")
+        if rb >= w["max_ratio_over_bound"]:
+            w["max_ratio_over_bound"], w["bound"] = rb, round(bound, 6)
+        if ratio > bound:
+            fails.append({"what": f"rounding error of {key} exceeds the proved bound", "ratio_in_u": ratio,
+                          "proved_bound_in_u": bound, **rec})
+
+    def call(kind, d, x, how):
+        if how == "float":
+            return float(impl[kind](float(x), d))
+        return float(np.asarray(impl[kind](np.array([x, x]), d), dtype=float)[0])
+
+    for i in range(n):
+        e = -15 + 30 * i / max(1, n - 1)
+        r = 10.0 ** e * (1 + rng.random()) / 1.5
+        r = min(max(r, 1e-15), 1e15)
+        ctx.count("float_layer_log10_radius", int(round(e / 5.0)) * 5)
+        for d in (1, 2, 3):
+            L = abs(math.log(r)) + 1e-9
+            B = _fp_bounds(d, L)
+            for how in ("float", "ndarray"):
+                rec0 = {"dim": d, "argument_kind": how}
+                # single conversions, each on an exactly representable argument
+                v_arg = float(exact("vfr", d, r))          # a volume of the matching magnitude (any double would do)
+                s_arg = float(exact("sfr", d, r))
+                for kind, x in (("vfr", r), ("rfv", v_arg), ("sfr", r)) + ((("rfs", s_arg),) if d > 1 else ()):
+                    y = call(kind, d, x, how)
+                    ex = exact(kind, d, x)
+                    if not (math.isfinite(y) and (y == 0 or lo <= abs(y) <= hi)):
+                        fails.append({"what": f"{kind} leaves the normal range of binary64", "arg": x, "value": y, **rec0})
+                        continue
+                    ratio = dctx.divide(abs(dctx.subtract(D(y), ex)), dctx.multiply(ex, u))
+                    Lk = abs(math.log(float(ex))) + 1e-9 if kind == "rfv" else L
+                    note(f"{kind}_{d}", ratio, _fp_bounds(d, Lk)[kind], {"arg": x, **rec0})
+                # round trips, measured exactly
+                def rt(f, g, x):
+                    return F(call(g, d, call(f, d, x, how), how))
+                for key, f, g, x in (("rv", "vfr", "rfv", r), ("vr", "rfv", "vfr", v_arg)) + \
+                        ((("rs", "sfr", "rfs", r), ("sr", "rfs", "sfr", s_arg)) if d > 1 else ()):
+                    back = rt(f, g, x)
+                    ratio = abs(back - F(x)) / (F(x) * F(FP_U))
+                    Lk = abs(math.log(float(exact("rfv", d, x)))) + 1e-9 if key == "vr" else L
+                    note(f"{key}_{d}", ratio, _fp_bounds(d, Lk)[key], {"arg": x, **rec0})
+                ctx.case(["float_layer", d, how, r])
+            # premise on pow (kp = 2): x ** 3 and x ** fl(1/3), scalar and array
+            if d == 3:
+                x = r
+                for how, y3, yc in (("float", float(x) ** 3, float(x) ** (1 / 3)),
+                                    ("ndarray", float((np.array([x, x]) ** 3)[0]), float((np.array([x, x]) ** (1 / 3))[0]))):
+                    e3 = F(x) ** 3
+                    note("premise_pow_cube", abs(F(y3) - e3) / (e3 * F(FP_U)), FP_KP, {"arg": x, "argument_kind": how})
+                    ec = dctx.power(D(x), D(1 / 3))      # x ** fl(1/3): pow itself, with the rounded exponent as given
+                    note("premise_pow_third", dctx.divide(abs(dctx.subtract(D(yc), ec)), dctx.multiply(ec, u)), FP_KP,
+                         {"arg": x, "argument_kind": how})
+    return worst, fails
+
+
+def _count_definedness(ctx, ok: bool, fresh: bool) -> None:
+    """The generated definedness obligations (Gen_spherical_def.v: every divisor non-zero, every radicand / base of a
+    non-integer power non-negative on the documented domain) count like the theorems.  When the obligations of the text
+    generated from the CURRENT source do not hold, that is reported by name whatever model the theorems then use."""
+    import re
+    f = vlib.COQ_BUILD / "Gen" / "Gen_spherical_def.v"
+    n = len(re.findall(r"^Lemma def_", f.read_text(), flags=re.M)) if f.exists() else 0
+    ctx.obligations += n
+    if ok:
+        ctx.discharged += n
+    ctx.extra["definedness_obligations"] = {"count": n, "model_text": "regenerated" if fresh else "golden",
+                                            "excluded_at_zero": EXCLUDED_AT_ZERO}
+    if fresh:
+        return
+    for msg in ctx.extra.get("fresh_text_failure", []):
+        for m in re.finditer(r"Gen_spherical_def\.v:(\d+):", msg):
+            try:  # the fresh text is gone from the build directory (golden text in use): regenerate it to name the obligation
+                import gen
+                line = gen.GENERATORS["Gen_spherical_def"]().splitlines()[int(m.group(1)) - 1]
+            except Exception:  # noqa
+                return  # the translator failed closed (the file was its stub): no obligation of the current source was tried
+            if not line.startswith("Lemma def_"):
+                return
+            ctx.obligations += 1
+            ctx.broken.append("definedness obligation of the conversions as written in the current source does not hold "
+                              "on the documented domain (the real-number model would be total there only because Coq's "
+                              "x / 0 = 0): " + " ".join(line.split())[:400])
+            return
+
+
+def _boundary_goals(ctx, tbl, model_diff) -> None:
+    """`f 0 = <value of the implementation at 0>` for every generated real definition (except the ones excluded by
+    name), proved inside Coq over the text in build/coq/Gen (fresh or golden) by the fixed tactic `at0`."""
+    import re
+    goals = []
+    for name, f in sorted(tbl.items()):
+        if name in EXCLUDED_AT_ZERO:
+            continue
+        ctx.case([name, 0.0], nontrivial=False)
+        ctx.count("function", name.rsplit("_", 1)[0])
+        ctx.count("log2_magnitude_bucket", "zero")
+        try:
+            y = f(0.0)
+        except Exception as e:  # noqa
+            y = f"raised {type(e).__name__}"
+        if not isinstance(y, float) or not math.isfinite(y):
+            ctx.broken.append(f"boundary {name}(0.0): the implementation returns {y!r}, the model a finite value")
+            model_diff.append({"function": name, "arg": 0.0, "implementation": repr(y)})
+            continue
+        expr = SAMPLE_EXPR[name](0.0) if name in SAMPLE_EXPR else f"{name} 0"
+        goals.append((name, expr, y))
+    unfold = "unfold " + ", ".join(sorted(tbl.keys())) + "."
+    d = ctx.casedir
+    d.mkdir(parents=True, exist_ok=True)
+    path = d / "Boundary_c12.v"
+    skip, failed = set(), []
+    for _round in range(8):
+        lines = ["From Coq Require Import Reals Lra.",
+                 "From PD Require Import Model.Num Model.Defined Gen.Gen_spherical Gen.Gen_droplet_basic.",
+                 "Local Open Scope R_scope."]
+        where = {}
+        for i, (name, expr, y) in enumerate(goals):
+            if i in skip:
+                continue
+            where[len(lines) + 1] = i
+            lines.append(f"Lemma b_{i} : {expr} = {vlib.rlit(y)}. Proof. {unfold} at0. Qed.")
+        path.write_text("\n".join(lines) + "\n")
+        rc, out = vlib.coqc(path, timeout=300)
+        if rc == 0:
+            break
+        m = re.search(r"line (\d+), characters", out)
+        if not m or int(m.group(1)) not in where:
+            ctx.broken.append(f"boundary goals: cannot evaluate: {' '.join(out.split())[-300:]}")
+            return
+        i = where[int(m.group(1))]
+        skip.add(i)
+        failed.append(i)
+    ctx.obligations += len(goals)
+    ctx.discharged += len(goals) - len(failed)
+    ctx.checker_cmds.append(f"coqc -R build/coq PD build/cases/{ctx.pid}/Boundary_c12.v   ({len(goals)} exact goals at the argument 0)")
+    if goals:
+        ctx.sample({"boundary_goal": f"{goals[0][1]} = {vlib.rlit(goals[0][2])}"})
+    for i in failed:
+        name, expr, y = goals[i]
+        ctx.broken.append(f"boundary goal {name}(0.0): generated model and implementation differ (implementation value {y!r})")
+        model_diff.append({"function": name, "arg": 0.0, "implementation": y})
 
 
 def check(ctx: vlib.Ctx) -> int:
     rng = random.Random(ctx.seed)
     # theorems over the text regenerated from the current source; over the golden text when the translator does not
     # carry the current source or the fresh text no longer fits the proof scripts (DESIGN.md 2.2, Fallback)
-    ok, fresh = vlib.prove_with_fallback(ctx, ["Proofs/C12.vo", "Model/Samples.vo"], gens=GENS)
+    ok, fresh = vlib.prove_with_fallback(ctx, DEPS, gens=GENS)
+    _count_definedness(ctx, ok, fresh)
     which = "regenerated" if fresh else "golden"
     ctx.tie.append(f"interval sample goals + index cases evaluated inside Coq: the {which} Gen_spherical / "
                    "Gen_spherical_index / Gen_droplet_basic definitions against the values computed by the implementation")
@@ -236,6 +534,7 @@ def check(ctx: vlib.Ctx) -> int:
             for (label, _expr, val) in lst:
                 g = by_label[label]
                 model_diff.append({"function": g[4], "arg": g[5], "implementation": val})
+        _boundary_goals(ctx, tbl, model_diff)
     # --- Z-valued index functions: model vs implementation inside Coq
     if ok:
         from droplets.tools import spherical as sp
@@ -259,8 +558,27 @@ def check(ctx: vlib.Ctx) -> int:
             ctx.broken.append(f"index functions: model and implementation differ on k in {bad[:5]}")
             model_diff.append({"function": "spherical_index_lm/_k/_count/_count_optimal", "k": bad[0]})
         ctx.count("index_k_range", f"0..{K - 1}", K)
+    # --- floating-point layer: measured rounding errors against the proved constants (Proofs/C12Float.v)
+    worst, fl_fails = float_layer(ctx, random.Random(ctx.seed + 17), ctx.scale(120, 1500))
+    ctx.extra["float_layer"] = {"u": "2^-53", "kp": FP_KP, "radii": "1e-15 .. 1e15",
+                                "theorems": ["C12_fp_conversions", "C12_fp_conversion_cbrt", "C12_fp_round_trips",
+                                             "C12_fp_round_trips_3", "C12_fp_constants", "C12_fp_model_binary64"],
+                                "restriction": "standard model: no intermediate result outside the normal range of binary64 "
+                                               "(checked per sample); pow within 1 ulp = 2u (measured: premise_pow_*)",
+                                "measured_relative_error_in_u": worst}
+    ctx.tie.append("floating-point layer: Gen_spherical_fp (" + which + ") carries the operation order of the source; the measured "
+                   "rounding errors of the implementation (scalar and ndarray evaluation, 30 orders of magnitude) are "
+                   "compared with the proved constants on every run")
+    if worst:
+        k = max(worst, key=lambda q: worst[q]["max_ratio_over_bound"])
+        ctx.sample({"float_layer_tightest": k, **worst[k]})
+    if fl_fails:
+        ctx.broken.append(f"floating-point layer: {len(fl_fails)} measured rounding errors exceed the proved bound "
+                          f"(a premise of the standard model is not met by this platform's arithmetic, or the code changed): "
+                          f"{fl_fails[0]['what']} at {fl_fails[0].get('arg')!r}")
     # --- property oracle over the implementation: always run a small sweep (also the search when broken)
     fails = oracle(rng, ctx.scale(8, 40) if not ctx.broken else 60)
+    fails = fails + fl_fails
     for f in fails[:3]:
         ctx.violations.append({"what": f["what"], "input": f, "found": True, "broken": ctx.broken[:3]})
     if not fresh and not fails:
